@@ -14,9 +14,12 @@ vertex_loader.rs, edge.rs, vertex.rs}` and `util/fs/{read_utils.rs, fs_utils.rs}
   (the hash-map representation sorts by the stored index).
 * the loader: `EdgeLoader::try_from` sizes `adj`/`rev` with the *declared or scanned* vertex count,
   then for every decoded row inserts `edge_id ↦ dst` into `adj[src]` and `edge_id ↦ src` into
-  `rev[dst]`; an endpoint outside the table goes into a `missing_vertices` set **which is never looked
-  at again**.  `edges` is the rows in file order; `vertices` is the vertex rows in file order; the
-  declared/scanned *edge* count only sizes a progress bar.  No check relates an id to its row.
+  `rev[dst]`; an endpoint outside the table goes into a `missing_vertices` set, and a non-empty set
+  after the whole edge file was read is a `DatasetError`.  `edges` is the rows in file order;
+  `vertices` is the vertex rows in file order; the declared/scanned *edge* count only sizes a progress
+  bar.  After both files are read, `graph_from_files` rejects (`DatasetError`) an edge list, then a
+  vertex list, whose ids are not their row numbers.  The number of vertex rows is NOT compared with
+  the declared/scanned vertex count.
 * file decoding (csv, gzip, line counting) is NOT modelled: a file is abstracted as `CsvFile`
   (can it be opened, how many text lines does `line_count` see, which records does the csv reader yield
   and which of them fail to decode).
@@ -190,13 +193,14 @@ def EdgeLoad.step (st : EdgeLoad) (e : Edge α) : EdgeLoad :=
 def loadEdges (es : List (Edge α)) (nVertices : Nat) : EdgeLoad :=
   es.foldl EdgeLoad.step (EdgeLoad.init nVertices)
 
-/-- `graph_from_files` after decoding: `nVertices` is the declared (or scanned) vertex count that sizes
-the adjacency tables; `vs` is whatever the vertex file holds.  Total: nothing is validated. -/
+/-- the graph `graph_from_files` assembles from decoded rows: `nVertices` is the declared (or scanned)
+vertex count that sizes the adjacency tables; `vs` is whatever the vertex file holds.  Total; the
+validation that precedes it in the loader is in `graphFromFiles`. -/
 def buildGraph (es : List (Edge α)) (vs : List (Vertex α)) (nVertices : Nat) : Graph α :=
   let l := loadEdges es nVertices
   { adj := l.adj, rev := l.rev, edges := es, vertices := vs }
 
-/-- the vertices the loader noticed were missing, and then forgot -/
+/-- the vertices the loader noticed were missing (a non-empty set fails the load) -/
 def missingVertices (es : List (Edge α)) (nVertices : Nat) : List Nat :=
   (loadEdges es nVertices).missing
 
@@ -247,6 +251,13 @@ def countOrScan (declared : Option Nat) (f : CsvFile ρ) : Except LoadErr Nat :=
 
 end
 
+/-- `ids.iter().enumerate().find(|(row, id)| id != row).is_none()`, counting rows from `k` -/
+def idsAreRowsFrom : Nat → List Nat → Bool
+  | _, [] => true
+  | k, x :: r => x == k && idsAreRowsFrom (k + 1) r
+
+def idsAreRows (ids : List Nat) : Bool := idsAreRowsFrom 0 ids
+
 /-- `Graph::from_files` / `graph_loader::graph_from_files`, in the code's order of evaluation -/
 def graphFromFiles {α : Type} (ef : CsvFile (Edge α)) (vf : CsvFile (Vertex α))
     (nEdges nVertices : Option Nat) : Except LoadErr (Graph α) :=
@@ -259,9 +270,15 @@ def graphFromFiles {α : Type} (ef : CsvFile (Edge α)) (vf : CsvFile (Vertex α
       match readCsv ef with
       | .error x => .error x
       | .ok es =>
-        match readCsv vf with
-        | .error x => .error x
-        | .ok vs => .ok (buildGraph es vs nV)
+        -- `EdgeLoader::try_from`: `if !missing_vertices.is_empty() { return Err(DatasetError) }`
+        if (missingVertices es nV).isEmpty = false then .error .dataset
+        else
+          match readCsv vf with
+          | .error x => .error x
+          | .ok vs =>
+            if idsAreRows (es.map Edge.edgeId) = false then .error .dataset
+            else if idsAreRows (vs.map Vertex.vertexId) = false then .error .dataset
+            else .ok (buildGraph es vs nV)
 
 /-- a per-edge table (speeds, grades, headings, road classes): row `i` of the file belongs to edge
 `i` (`read_raw_file` enumerates lines from zero; `from_csv` keeps row order) -/
